@@ -49,7 +49,8 @@ PROP = {
             "an id switch with readers open. Third harness C05chan (monitor only, real time, both backends through the Channel interface): "
             "NewAofWritter/NewRdbWriter + Start (real ingest, snapshot and stream over ONE source connection), NewReader + ChannelReader.Start "
             "(real pump / copy loop, pipe, bufio) + IoReader, run-id wrappers (foreign id, '?', StartPoint at reconnect), reference-leak check after "
-            "ChannelReader.Close / WaitCloser, chunks and segments up to 9 KiB / 40 KiB, > 1.3 MiB through one pipe with a lagging consumer, and a "
+            "ChannelReader.Close / WaitCloser, chunks and segments up to 33 KiB / 40 KiB (memory also LogSize 0), 2.6 MiB through one pipe with a consumer that lags by more than pipe + buffered "
+            "reader hold and tops its buffer up with Peek (the pipe's ring wraps), and a "
             "concurrent phase (writer, 2 followers, 3 openers at the left edge, collector loop as real goroutines). "
             "distinct_nontrivial = cases with rotation and a reader that crossed a segment boundary",
     "trusted": [
@@ -87,7 +88,8 @@ MANIFEST = {
             "Memory: NO global byte-faithfulness theorem (correspondence + monitor only); proved are one-step facts for every state (collector removes only a closed "
             "unreferenced prefix, finishRdb keeps only complete snapshots, collected snapshot not offered, successor lookup by identity). Tie: generated op sequences on the real Storer and the real MemoryChannel (synctest), every answer, "
             "reference count and byte compared with the model and with independent bookkeeping.",
-    "note": "trusted: Lean kernel, harness, synctest quiescence; assumptions: callers' protocol for disk writers, no re-scan with open readers; partial: global memory refinement stated not proved. "
-            "Defects fixed: D14 (memory+disk), D17, D20-D25 (see known_findings.d/C05.json).",
+    "note": "trusted: Lean kernel, harness, synctest quiescence; assumptions: callers' protocol for disk writers (continuity; no writer open at an id switch); "
+            "partial: memory backend has step facts only (global refinement stated, not proved), one-step progress instead of a catch-up theorem. "
+            "Defects fixed: D14 (memory+disk), D17, D20-D27 (see known_findings.d/C05.json; D27 = re-scan with open readers at every source reconnect).",
     "technique": "Lean 4 proof (invariant over arbitrary operation lists, step-level refinement) + differential correspondence on generated operation sequences",
 }
